@@ -877,7 +877,7 @@ Lemma flush_run_apps outs acc ra : napps (fst (flush_run outs acc ra)) <= napps 
 Proof.
   unfold flush_run, napps. destruct acc as [s o]. cbv zeta.
   destruct (Nat.leb (length (p_ahs s)) (snd ra)); [cbn [fst]; lia|].
-  destruct (inactive (get_obj s (ah_app (get_ah s (snd ra)))) (p_now s)).
+  destruct (flush_inactive (get_obj s (ah_app (get_ah s (snd ra)))) (p_now s)).
   - cbn [fst p_apps with_apps]. apply removeN_length.
   - match goal with |- context [filter_harvest_pkgs ?S ?I ?H] =>
       pose proof (filter_harvest_pkgs_apps S I H) as E1; destruct (filter_harvest_pkgs S I H) as [s2 h1] end.
